@@ -2,6 +2,7 @@ import FancyModel.Proofs.C03d
 import FancyModel.Proofs.C05e
 import FancyModel.Lemmas.VMBytesAgree
 import FancyModel.Lemmas.ParseHiOK
+import FancyModel.Lemmas.ParseCodeBound
 import FancyModel.Proofs.C06d
 /-!
 # C01f — the capstone chain: analyze.rs, compile.rs and `vm::run`, as translated, compute the
@@ -209,6 +210,75 @@ theorem C07_translated_chain_source_terminates (isAlnum : Char → Bool) (cs : L
   exact C07_translated_chain_terminates c hceq hU t.expr t.backrefs b prog hb hk hst.1
     (Parse.parse_build_wellShaped isAlnum cs casei t b hp' hb).2 (build_raw_noBareEndZ t.expr t.backrefs b hb hst.2)
     hpos (Parse.parse_analyzable isAlnum cs casei t hp') (Parse.parse_hiOK isAlnum cs casei t hp') hfit limit
+
+/-! ### with the size hypothesis discharged from the pattern length
+
+`Parse.parse_codeBound` (Lemmas/ParseCodeBound.lean): `codeBound t.expr ≤ 44 * (pattern bytes) + 1` for every parsed
+tree, `+ 24` for the wrapper; so a pattern shorter than `2^58` bytes is inside the translated compiler's domain. -/
+
+include hceq hU in
+/-- **C01, the whole translated chain, no translator-domain hypothesis left**: a stage-S3 pattern string shorter
+    than `2^58` bytes, parsed by the translated parse.rs, analyzed by the translated analyze.rs, compiled by the
+    translated compile.rs and run by the translated `vm::run` on the bytes of a text, computes the reference search -/
+theorem C01_translated_chain_source' (isAlnum : Char → Bool) (cs : List Char) (casei : Bool) (t : Parse.Tree)
+    (b : Built) (prog : Prog)
+    (hp : GenParse.parse_with_case_insensitive isAlnum (Parse.bytesOf cs) casei = .ok t)
+    (hb : build t.expr t.backrefs = .ok b)
+    (hk : b.kind = .fancy prog) (hst : s3Pattern t b = true) (hpos : c.pos ≤ c.len)
+    (hsize : (Parse.bytesOf cs).size < 2 ^ 58) (limit fuel : Nat) :
+    ∃ prog', genFront (fun g => t.backrefs.contains g) (renumber (wrapTree t.expr) 0).1 = .ok prog' ∧
+      ((genRun (BCtx.ofCtx c) prog' ⟨limit, maxStackDefault⟩ fuel).1 = .outOfFuel ∨
+       (genRun (BCtx.ofCtx c) prog' ⟨limit, maxStackDefault⟩ fuel).1 = .errStack ∨
+       (genRun (BCtx.ofCtx c) prog' ⟨limit, maxStackDefault⟩ fuel).1 = .errLimit ∨
+       match refSearch c b.raw b.nGroups with
+       | some f => ∃ savesB, (genRun (BCtx.ofCtx c) prog' ⟨limit, maxStackDefault⟩ fuel).1 = .matched savesB ∧
+           (viewSlots savesB).take (b.nGroups * 2) = f.slots.map (Option.map (offOf c.text))
+       | none => (genRun (BCtx.ofCtx c) prog' ⟨limit, maxStackDefault⟩ fuel).1 = .noMatch) :=
+  C01_translated_chain_source c hceq hU isAlnum cs casei t b prog hp hb hk hst hpos
+    (Parse.parse_codeBound_fits isAlnum cs casei t
+      (by rw [← GenParse.Descent.C06_parse_translated_str]; exact hp) hsize) limit fuel
+
+include hceq hU in
+theorem C01_translated_chain_pipeline' (isAlnum : Char → Bool) (cs : List Char) (casei : Bool) (t : Parse.Tree)
+    (b : Built) (prog : Prog) (hp : Parse.parseStr isAlnum cs casei = .ok t) (hb : build t.expr t.backrefs = .ok b)
+    (hk : b.kind = .fancy prog) (hst : s3Pattern t b = true) (hpos : c.pos ≤ c.len)
+    (hsize : (Parse.bytesOf cs).size < 2 ^ 58) (limit fuel : Nat) :
+    ∃ prog', genFront (fun g => t.backrefs.contains g) (renumber (wrapTree t.expr) 0).1 = .ok prog' ∧
+      ((genRun (BCtx.ofCtx c) prog' ⟨limit, maxStackDefault⟩ fuel).1 = .outOfFuel ∨
+       (genRun (BCtx.ofCtx c) prog' ⟨limit, maxStackDefault⟩ fuel).1 = .errStack ∨
+       (genRun (BCtx.ofCtx c) prog' ⟨limit, maxStackDefault⟩ fuel).1 = .errLimit ∨
+       match refSearch c b.raw b.nGroups with
+       | some f => ∃ savesB, (genRun (BCtx.ofCtx c) prog' ⟨limit, maxStackDefault⟩ fuel).1 = .matched savesB ∧
+           (viewSlots savesB).take (b.nGroups * 2) = f.slots.map (Option.map (offOf c.text))
+       | none => (genRun (BCtx.ofCtx c) prog' ⟨limit, maxStackDefault⟩ fuel).1 = .noMatch) :=
+  C01_translated_chain_pipeline c hceq hU isAlnum cs casei t b prog hp hb hk hst hpos
+    (Parse.parse_codeBound_fits isAlnum cs casei t hp hsize) limit fuel
+
+include hceq hU in
+theorem C05_translated_chain_source_no_panic' (isAlnum : Char → Bool) (cs : List Char) (casei : Bool) (t : Parse.Tree)
+    (b : Built) (prog : Prog)
+    (hp : GenParse.parse_with_case_insensitive isAlnum (Parse.bytesOf cs) casei = .ok t)
+    (hb : build t.expr t.backrefs = .ok b)
+    (hk : b.kind = .fancy prog) (hst : s3Pattern t b = true) (hpos : c.pos ≤ c.len)
+    (hsize : (Parse.bytesOf cs).size < 2 ^ 58) (limit fuel : Nat) :
+    ∃ prog', genFront (fun g => t.backrefs.contains g) (renumber (wrapTree t.expr) 0).1 = .ok prog' ∧
+      ∀ site, (genRun (BCtx.ofCtx c) prog' ⟨limit, maxStackDefault⟩ fuel).1 ≠ .panic site :=
+  C05_translated_chain_source_no_panic c hceq hU isAlnum cs casei t b prog hp hb hk hst hpos
+    (Parse.parse_codeBound_fits isAlnum cs casei t
+      (by rw [← GenParse.Descent.C06_parse_translated_str]; exact hp) hsize) limit fuel
+
+include hceq hU in
+theorem C07_translated_chain_source_terminates' (isAlnum : Char → Bool) (cs : List Char) (casei : Bool)
+    (t : Parse.Tree) (b : Built) (prog : Prog)
+    (hp : GenParse.parse_with_case_insensitive isAlnum (Parse.bytesOf cs) casei = .ok t)
+    (hb : build t.expr t.backrefs = .ok b)
+    (hk : b.kind = .fancy prog) (hst : s3Pattern t b = true) (hpos : c.pos ≤ c.len)
+    (hsize : (Parse.bytesOf cs).size < 2 ^ 58) (limit : Nat) :
+    ∃ prog', genFront (fun g => t.backrefs.contains g) (renumber (wrapTree t.expr) 0).1 = .ok prog' ∧
+      ∃ N, ∀ fuel, N ≤ fuel → (genRun (BCtx.ofCtx c) prog' ⟨limit, maxStackDefault⟩ fuel).1 ≠ .outOfFuel :=
+  C07_translated_chain_source_terminates c hceq hU isAlnum cs casei t b prog hp hb hk hst hpos
+    (Parse.parse_codeBound_fits isAlnum cs casei t
+      (by rw [← GenParse.Descent.C06_parse_translated_str]; exact hp) hsize) limit
 
 end Chain
 
